@@ -198,6 +198,16 @@ class Interp:
             i += 1
         return and_(*g[i:])
 
+    def rel_guard_loop(self, born, L):
+        """like rel_guard, additionally dropping the conjuncts that merely say
+        'the loop body of L is executing' (loop condition and everything before it)"""
+        g = self.cur_guard_list(state=True)
+        i = 0
+        while i < len(g) and i < len(born) and g[i] == born[i]:
+            i += 1
+        i = max(i, getattr(L, "body_guard_len", 0))
+        return and_(*g[i:])
+
     def born_now(self):
         return tuple(self.cur_guard_list(state=True))
 
@@ -909,7 +919,7 @@ class _CallMixin:
         if name == "append":
             lc = self.loop_ctx[-1] if self.loop_ctx else None
             if lc is not None and not self.loop_born_inside(o, lc):
-                o.items.append(("rep", lc, args[0], g))
+                o.items.append(("rep", lc, args[0], self.rel_guard_loop(o.born, lc)))
             else:
                 o.items.append(("v", args[0], g))
             if self.writelog is not None:
@@ -1712,6 +1722,16 @@ class _LoopMixin:
         return [x.id for x in ast.walk(t) if isinstance(x, ast.Name)]
 
     def elem_of(self, it, L):
+        """i-th element of the iterated object.  A list that was filled by exactly one
+        unconditional append per iteration of an earlier loop yields that loop's
+        element term (re-indexed); anything else stays opaque."""
+        if isinstance(it, Ref):
+            o = self.heap.get(it.oid)
+            if isinstance(o, ListObj) and len(o.items) == 1 and o.items[0][0] == "rep":
+                _, L0, term, g = o.items[0]
+                inv = not any(isinstance(x, Sym) and (x == L0.idx or x.kind == "loopvar") for x in walk(g))
+                if inv:
+                    return subst(term, {L0.idx: L.idx})
         return Op("elem", it, L.idx)
 
     def delta_of(self, nxt, lvsym, L, lv):
@@ -1760,6 +1780,7 @@ class _LoopMixin:
                 self.assign(st.target, elem, st)
             if final:
                 L.body_guard = self.cur_guard()
+            L.body_guard_len = len(self.cur_guard_list(state=True))
             if self.feasible():
                 self.exec_block(st.body)
         finally:
